@@ -99,6 +99,17 @@ CHECKS = {
         "cleared by reset / replacing load). unset_value() on members is not part of the histories. Bounds: <=12 options, <=16 steps.",
         "DESIGN.md 3/C05",
     ),
+    "C11": (
+        "exploration",
+        "metamorphic property-based testing: a file using deprecated names vs. the same file rewritten to the replacements (Hypothesis)",
+        "Generated trees x rename files x sdkconfig texts mixing old and new names; two fresh instances load the original and the rewritten "
+        "text and must end in the same configuration, user values and missing_syms; the deprecated block is checked to be ignored by "
+        "default (values, missing_syms, alias names stay undefined for eval_string) and, when requested, to evaluate to what was written. "
+        "A metamorphic relation is the documented meaning of a rename.",
+        "Trusted: the line rewriting in vk/props/c11.py (y/n swapped for '!' renames of bools, 'not set' on an inverted alias -> y). "
+        "'!' only on bool replacements. Bounds: <=12 options, <=9 aliases, <=10 lines.",
+        "DESIGN.md 3/C11",
+    ),
 }
 
 NOT_YET = {}
